@@ -160,7 +160,7 @@ def run_codec(prop, tier, seed):
             p = subprocess.run([binp, "codec", res["path"], outj], stdout=subprocess.PIPE, stderr=subprocess.STDOUT, text=True, timeout=HARNESS_TIMEOUT)
             kind = "codec-case"
         else:
-            nmut = {"quick": 600, "thorough": 20000}[tier]
+            nmut = {"quick": 600, "thorough": 100000}[tier]
             p = subprocess.run([binp, "hostile", res["path"], str(seed), str(nmut), outj], stdout=subprocess.PIPE, stderr=subprocess.STDOUT, text=True, timeout=HARNESS_TIMEOUT)
             kind = "hostile-case"
         if p.returncode != 0:
